@@ -1033,3 +1033,4 @@ def replay(ctx, data):
         return 0
     finally:
         app.close()
+        shutil.rmtree(ctx.workdir, ignore_errors=True)
